@@ -266,6 +266,15 @@ class Engine(
                     # slice that might exist, and save those for the new outer
                     # query, since putting those in a subquery would destroy
                     # the ordering.
+                    if not select.sort.columns_required <= select.columns:
+                        # The Sort uses a column that an earlier Projection
+                        # already dropped, so it cannot be evaluated outside
+                        # the subquery.
+                        if select.has_slice:
+                            return Select.apply_skip(select, projection=operation)
+                        raise RelationalAlgebraError(
+                            f"Applying {operation} to relation {select} will not preserve row order."
+                        )
                     subquery = select.reapply_skip(sort=None, slice=None)
                     return Select.apply_skip(
                         subquery,
